@@ -14,11 +14,13 @@ RULE = ('one seeded chart spec and event history is executed under a drawn subse
         'configuration pair whose history contains a transition; distinct = distinct (configuration, topology class, '
         'init depth) tuples.')
 ASSUMPTIONS = ['no schedule dimension; in the active-object hosts the client waits for the object to be idle between events']
-PROBES = []
+PROBES = ['live_output_with_concurrent_posters']
 PLAN = {
-  'quick': {'strata': {'configs': 1500}, 'wall_s': 300, 'chunk': 25, 'min_conclusive': 300},
-  'thorough': {'strata': {'configs': 40000}, 'wall_s': 900, 'chunk': 100, 'min_conclusive': 3000},
+  'quick': {'strata': {'configs': 1500, 'threaded': 500}, 'wall_s': 300, 'chunk': 25, 'min_conclusive': 300},
+  'thorough': {'strata': {'configs': 40000, 'threaded': 15000}, 'wall_s': 900, 'chunk': 100, 'min_conclusive': 3000},
 }
+THREADED_CONFIGS = [{'spied': sp, 'instrumented': fl, 'live_spy': ls, 'live_trace': lt}
+                    for sp in (False, True) for fl in (True, False) for ls in (False, True) for lt in (False, True)]
 
 
 def all_configs():
@@ -38,8 +40,29 @@ def all_configs():
 CONFIGS = all_configs()
 
 
+def generate_threaded(rng):
+  # an active object that other threads (clients, a timed source) post to while it works: what it does with the
+  # posted events must not depend on the decorator, the instrumented flag or live output
+  from worlds import ao as aw, common
+  objs = aw.default_objects(1)
+  objs[0]['two_states'] = False
+  if rng.random() < 0.5:
+    objs[0]['react'] = {'SA': [{'op': rng.choice(['post_fifo', 'post_lifo']), 'sig': 'SC', 'id': 1, 'max': 3}]}
+  nclients = rng.randrange(2, 4)
+  clients = [[['start', 0]]] + [[['sleep', 0.001]] for _ in range(nclients - 1)]
+  for _ in range(rng.randrange(4, 14)):
+    clients[rng.randrange(nclients)].append([rng.choice(['post_fifo', 'post_fifo', 'post_lifo']), 0, rng.choice(['SA', 'SB'])])
+  if rng.random() < 0.5:
+    clients[0].append(['timed', 0, rng.choice(['fifo', 'lifo']), 'T0', 0.1, rng.choice([1, 3]), rng.choice([True, False]), 0])
+  picks = rng.sample(range(1, len(THREADED_CONFIGS)), 3)
+  return {'world': 'ao', 'objects': objs, 'queue_size': 500, 'clients': clients, 'configs': [0] + sorted(picks),
+          'sched': common.draw_sched(rng, grans=('sync', 'line'), expected_steps=2000, victims=[rng.choice(['writer', 'consumer'])])}
+
+
 def generate(seed, stratum, tier):
   rng = random.Random(seed)
+  if stratum == 'threaded':
+    return generate_threaded(rng)
   sc = cc.gen_chart_scenario(rng, combos=[('plain', 'closure')], nops=(4, 25), ops=('ev', 'is_in', 'child'), weights=(8, 1, 1))
   k = 6 if tier == 'quick' else 10
   picks = rng.sample(range(1, len(CONFIGS)), k)
@@ -48,6 +71,17 @@ def generate(seed, stratum, tier):
 
 
 def shrink_candidates(sc):
+  if sc.get('world') == 'ao':
+    cfgs = sc['configs']
+    if len(cfgs) > 2:
+      for i in range(1, len(cfgs)):
+        yield dict(sc, configs=cfgs[:i] + cfgs[i + 1:])
+    cl = sc['clients']
+    for i, s_ in enumerate(cl):
+      for j in range(len(s_) - 1, -1, -1):
+        if s_[j][0] != 'start':
+          yield dict(sc, clients=cl[:i] + [s_[:j] + s_[j + 1:]] + cl[i + 1:])
+    return
   cfgs = sc['configs']
   if len(cfgs) > 2:
     for i in range(1, len(cfgs)):
@@ -66,7 +100,72 @@ def behaviour(run):
   return [(tuple(ob.op), tuple(co.obs_actions(ob.recs)), ob.state, ob.exc) for ob in run.steps]
 
 
+def execute_threaded(sc, sched):
+  from worlds import ao as aw, common
+  from checks import ao_common as ac
+  from sim import kernel
+  from sim.runner import RunResult
+  total = RunResult()
+  for idx, ci in enumerate(sc['configs']):
+    cfg = THREADED_CONFIGS[ci]
+    sc2 = dict(sc, objects=[dict(sc['objects'][0], **cfg)])
+    r = RunResult()
+    # a recorded decision list belongs to the configuration that misbehaved, which is the last one a (minimised)
+    # scenario lists; the configurations before it run under the seed, exactly as they did when the run was found
+    sch = sched
+    if sched.get('mode') == 'replay' and idx != len(sc['configs']) - 1:
+      sch = {'mode': 'seeded', 'seed': sched.get('seed', 0)}
+    run, sim, reason = aw.run_ao(sc2, sch, max_steps=300000)
+    try:
+      problem = None
+      if ac.base_judge(run, sim, reason, r):
+        ctl = run.consumer_ctl(0)
+        posted = sorted(u for u, p in run.posts.items() if p['end'] is not None)
+        got = sorted(d[3] for d in run.dispatch if d[3] in run.posts)
+        ntimed = sum(1 for d in run.dispatch if d[2] == 'T0')
+        want_timed = sum(s['times'] for s in run.sources if not s['rejected'])
+        if ctl is None or ctl.state == kernel.DONE:
+          problem = ('thread-ended', 'the object\'s thread has ended')
+        elif got != posted:
+          problem = ('dispatch-set', 'posted %s, dispatched %s' % (posted, got))
+        elif ntimed != want_timed:
+          problem = ('timed-count', 'the timed source was dispatched %d times, expected %d' % (ntimed, want_timed))
+      elif r.outcome == 'violation':
+        problem = (r.violations[0].rule, r.violations[0].detail)
+      elif r.outcome == 'inconclusive':
+        total.outcome, total.reason = 'inconclusive', r.reason
+        return total
+      if problem is not None:
+        if ci == 0:
+          total.outcome, total.reason = 'inconclusive', 'baseline (un-spied, no live output) misbehaves: ' + problem[0]
+          return total
+        total.violate('config-misbehaves', {'host': 'ao-threaded', 'spied': cfg['spied'], 'rule': problem[0],
+                                            'live': bool(cfg['live_spy'] or cfg['live_trace'])},
+                      'active object with other threads posting to it, configuration %s: %s\n(the un-spied configuration without live output handled the same scenario correctly)' % (cfg, problem[1]))
+        return total
+      if cfg['live_spy'] or cfg['live_trace']:
+        sim.probe('live_output_with_concurrent_posters')
+      total.nontrivial.append(hash(('threaded', ci, len(run.dispatch) // 3, sim.switch_signature())))
+      if sched.get('seed', 0) % 499 == 0 and total.sample is None:
+        total.sample = {'world': 'threaded active object', 'clients': sc['clients'], 'configs': [THREADED_CONFIGS[c] for c in sc['configs']]}
+    finally:
+      common.finish(sim, r)
+      total.steps += r.steps
+      total.switches += r.switches
+      total.sim_us += r.sim_us
+      total.digest = hash((total.digest, r.digest))
+      for k, v in r.probes.items():
+        total.probes[k] = total.probes.get(k, 0) + v
+      for k, v in r.faults.items():
+        total.faults[k] = total.faults.get(k, 0) + v
+      total.interleavings.extend(r.interleavings)
+      total.decisions = r.decisions
+  return total
+
+
 def execute(sc, sched):
+  if sc.get('world') == 'ao':
+    return execute_threaded(sc, sched)
   base_res = None
   base_beh = None
   total = None
